@@ -27,6 +27,81 @@ def _new_baton():
     return lk
 
 
+# ---------------------------------------------------------------------- line events
+# Line-level pre-emption points come from sys.monitoring (PEP 669, CPython >= 3.12): LINE
+# events are enabled *per code object* of the traced files only, so code outside them (e.g.
+# SQLAlchemy) runs at full speed.  sys.settrace is the fallback (VERIF_TRACE=settrace).
+import os as _os
+
+_MON = getattr(sys, "monitoring", None) if _os.environ.get("VERIF_TRACE", "monitoring") != "settrace" else None
+_TOOL = 3
+_ACTIVE: "Sim | None" = None  # the simulation whose tasks receive line events
+_instrumented: dict[Any, bool] = {}  # code object -> LINE events currently enabled
+_mon_ready = False
+
+
+def _codes_of(suffixes: tuple[str, ...]) -> list[Any]:
+    import types
+
+    out: list[Any] = []
+    seen: set[int] = set()
+
+    def walk(co: Any) -> None:
+        if id(co) in seen:
+            return
+        seen.add(id(co))
+        out.append(co)
+        for c in co.co_consts:
+            if isinstance(c, types.CodeType):
+                walk(c)
+
+    for mod in list(sys.modules.values()):
+        f = getattr(mod, "__file__", None)
+        if not f or not f.endswith(suffixes):
+            continue
+        for obj in list(vars(mod).values()):
+            fn = getattr(obj, "__func__", obj)
+            if isinstance(fn, types.FunctionType) and fn.__code__.co_filename == f:
+                walk(fn.__code__)
+            elif isinstance(obj, type) and getattr(obj, "__module__", None) == mod.__name__:
+                for v in list(vars(obj).values()):
+                    v = getattr(v, "__func__", v)
+                    if isinstance(v, property):
+                        for g in (v.fget, v.fset, v.fdel):
+                            if g is not None and hasattr(g, "__code__"):
+                                walk(g.__code__)
+                    elif isinstance(v, types.FunctionType) and v.__code__.co_filename == f:
+                        walk(v.__code__)
+                    elif hasattr(v, "__wrapped__") and hasattr(v.__wrapped__, "__code__"):
+                        walk(v.__wrapped__.__code__)
+    return out
+
+
+def _on_line(code: Any, line: int) -> Any:
+    sim = _ACTIVE
+    if sim is not None:
+        sim._line_event()
+    return None
+
+
+def _set_monitoring(suffixes: tuple[str, ...]) -> None:
+    """Enable LINE events exactly for the code objects of the files in `suffixes`."""
+    global _mon_ready
+    if not _mon_ready:
+        _MON.use_tool_id(_TOOL, "simkit")
+        _MON.register_callback(_TOOL, _MON.events.LINE, _on_line)
+        _mon_ready = True
+    want = {c: True for c in _codes_of(suffixes)} if suffixes else {}
+    for c in list(_instrumented):
+        if c not in want:
+            _MON.set_local_events(_TOOL, c, 0)
+            del _instrumented[c]
+    for c in want:
+        if c not in _instrumented:
+            _MON.set_local_events(_TOOL, c, _MON.events.LINE)
+            _instrumented[c] = True
+
+
 class SimKilled(BaseException):
     """Raised inside tasks of a crashed process (kill -9 model: seams stop having effects)."""
 
@@ -97,7 +172,7 @@ class Task:
         try:
             if self.proc.dead:
                 raise SimKilled()
-            if sim.trace_suffixes:
+            if sim.trace_suffixes and _MON is None:
                 sys.settrace(sim._trace)
             self.result = self.fn()
         except SimKilled as e:
@@ -222,6 +297,10 @@ class Sim:
         self.digest = hashlib.blake2b(digest_size=16)
         self._main_sem = _new_baton()
         self._code_cache: dict[Any, bool] = {}
+        if _MON is not None:
+            global _ACTIVE
+            _set_monitoring(self.trace_suffixes)
+            _ACTIVE = self if self.trace_suffixes else None
         self.counters: dict[str, int] = {}
         self.harness_proc = self.proc("harness")
         self.fault_table: dict[str, Any] = {}
@@ -286,8 +365,13 @@ class Sim:
 
     def _line(self, frame, event, arg):
         if event == "line":
+            self._line_event()
+        return self._line
+
+    def _line_event(self) -> None:
+        if True:
             t = self.cur
-            if t is not None and not self.atomic_depth:
+            if t is not None and not self.atomic_depth and t.real_ident == _real_get_ident():
                 self.line_events += 1
                 t.nyield += 1
                 if t.proc.dead:
@@ -309,7 +393,6 @@ class Sim:
                             self._handoff(t, tgt2)
                 elif ch.want_switch(True):
                     self._switch_random(t)
-        return self._line
 
     def _cap(self) -> None:
         """Step budget exhausted: stop the whole run (reported as 'stepcap')."""
@@ -577,6 +660,9 @@ class Sim:
 
     def teardown(self) -> None:
         """Kill every remaining task so that no thread outlives the run."""
+        global _ACTIVE
+        if _ACTIVE is self:
+            _ACTIVE = None
         self.running = False
         for p in self.procs:
             if any(not t.done for t in p.tasks):
